@@ -1,5 +1,6 @@
 import MirProofs.Lemmas.Entropy
 import MirProofs.Lemmas.EmiSupport
+import MirProofs.Lemmas.BeatInfoFinite
 import MirProofs.Props.C01_Beat
 /-!
   C01 (entropy-based scores) — the ranges of the scores that are built from Shannon entropies, for ALL inputs,
@@ -7,6 +8,7 @@ import MirProofs.Props.C01_Beat
   driver runs the same definitions at `Float`).  Everything rests on `log t ≤ t − 1`.
 
   * `beat.information_gain` ∈ [0, 1]                     (`information_gain_range`, `information_gain_public_range`)
+  * … and a number (not nan) for strictly increasing estimated beats   (`information_gain_finite_of_increasing`)
   * `_get_entropy`: 0 ≤ H ≤ log2 #{non-empty bins} ≤ log2 bins   (`get_entropy_range`)
   * `_entropy(labels)`: 0 ≤ H ≤ log #labels                (`label_entropy_range`)
   * 0 ≤ MI ≤ min(H(ref), H(est))                          (`mi_range`)
@@ -107,6 +109,38 @@ theorem information_gain_finite_partial (ref est : List Rat) (bins : Nat) (r : O
   refine ⟨informationGainCore_some_iff (by omega) hlen h, ?_⟩
   rintro x rfl
   exact information_gain_range ref est bins x tie hb h
+
+/-- every backward beat error is finite when the estimated beats are strictly increasing (at least two): the
+    interval each reference beat is measured against is a difference of two different estimated beats. -/
+theorem backward_beat_errors_finite (ref est : List Rat) (hinc : est.Pairwise (· < ·)) (hlen : 2 ≤ est.length) :
+    ∃ vb, Beat.beatErrors est ref = .ok vb ∧ vb.length = ref.length :=
+  Beat.beatErrors_length_of_increasing hinc hlen ref
+
+/-- **Input-level sufficient condition for a finite score.** If the estimated beats are strictly increasing, the
+    information gain is a number in [0, 1] — for ANY reference sequence and any `bins ≥ 2` (with fewer than two beats
+    on a side the code returns 0; otherwise every backward beat error is finite, `backward_beat_errors_finite`, so the
+    hypothesis of `information_gain_finite_partial` holds). The nan finding therefore needs coincident estimated
+    beats. -/
+theorem information_gain_finite_of_increasing (ref est : List Rat) (bins : Nat) (hb : 2 ≤ bins)
+    (hinc : est.Pairwise (· < ·)) :
+    ∃ x tie, Beat.informationGainCore Beat.realOps ref est bins = .ok (some x, tie) ∧ 0 ≤ x ∧ x ≤ 1 := by
+  obtain ⟨x, tie, h⟩ := Beat.informationGainCore_some_of_increasing (ref := ref) (bins := bins) (by omega) hinc
+  exact ⟨x, tie, h, information_gain_range ref est bins x tie hb h⟩
+
+/-- the same for the public function on validated input -/
+theorem information_gain_public_finite_of_increasing (ref est : List Rat) (bins : Nat) (hb : 2 ≤ bins)
+    (hv : Beat.validate ref est = .ok ()) (hinc : est.Pairwise (· < ·)) :
+    ∃ x tie, Beat.informationGain Beat.realOps ref est bins = .ok (some x, tie) ∧ 0 ≤ x ∧ x ≤ 1 := by
+  obtain ⟨x, tie, h, hr⟩ := information_gain_finite_of_increasing ref est bins hb hinc
+  refine ⟨x, tie, ?_, hr⟩
+  unfold Beat.informationGain
+  rw [Beat.validate_bind_ok]
+  exact ⟨hv, h⟩
+
+example : ([11 / 2, 6] : List Rat).Pairwise (· < ·) ∧ 2 ≤ ([11 / 2, 6] : List Rat).length ∧
+    Beat.validate [5, 6, 7] [11 / 2, 6] = .ok () ∧
+    Beat.beatErrors [11 / 2, 6] [5, 6, 7] = .ok [0, 0, 0] := by
+  refine ⟨by simp; norm_num, by simp, by decide +kernel, by decide +kernel⟩
 
 /-! ### segment: entropies, MI, NMI -/
 
